@@ -1,9 +1,13 @@
+from vlib import x_bld
+
 SPEC = dict(
     props_file="Props/C18.v",
     level="proof",
-    translators=[dict(cmd="tr_crc", out="Gen/Crc16Tab.v")],
+    translators=[dict(cmd="tr_crc", out="Gen/Crc16Tab.v"), dict(cmd="tr_builders", out="Gen/Builders.v")],
     observers=[dict(cmd="obs_slot", imports=["Model.Slot", "Model.SlotGen"], case_type="Slot.case", check="SlotGen.check_case",
-                    n={"quick": 1500, "thorough": 120000}, shard=400)],
+                    n={"quick": 1500, "thorough": 120000}, shard=400),
+               dict(cmd="obs_builders", imports=["Model.BuilderGraph", "Model.BuilderSem", "Model.BuilderGen"], case_type="BuilderSem.case",
+                    check="BuilderGen.check_case", n={"quick": 600, "thorough": 20000}, shard=100, args=["-prop", "C18"])],
     rule="keys: brace edge cases (36 fixed), brace-heavy random strings, tagged keys, random bytes incl. NUL/0xFF (thorough: "
          "additionally all 65,536 two-byte keys); multi-key combinations through 16 real builder shapes (single and variadic key "
          "parameters, Arbitrary.Keys) on cluster and non-cluster builders with keys sharing a tag 2/3 of the time; SetSlot. "
@@ -12,6 +16,7 @@ SPEC = dict(
              "Go's uint16/uint8 arithmetic in crc16() is modelled with N.shiftl/N.lxor and explicit mod 2^16 (exercised by the tie)"],
     assumptions=["keys are byte strings (every element < 256)"],
 )
+SPEC["extra"] = x_bld.make_extra("C18", lambda: SPEC)
 
 MANIFEST = dict(
     text="Proof: the CRC table regenerated from slot.go is proved (kernel, every run) to hold the bitwise CRC16-XMODEM of each index; "
